@@ -6,10 +6,13 @@
      aside = sum of the expected amounts recorded by successful SubmitBatch;
      swept = ownerless stake moved to the fee balance by LiquidStake (only when LST = 0 and staked > 0);
      adjN  = signed re-basing by ResumeContract.
-   Where the forwarded tokens ARE (delivered / in flight / refunded) is a statement about the chain; it is
-   checked on the chain simulator by the world monitor and is the part of DESIGN section 6 C01 not yet proved. *)
-From MW Require Import Staking.
-From MW.Proofs Require Import Tactics Handlers Maps Invariant Ledger.
+   Where the forwarded tokens ARE (delivered / in flight / refunded and still recorded) is a statement about the
+   chain: C01_located below proves it over the world model of World.v (transactions are atomic, every transfer the
+   contract emits becomes a packet and a reply, settlements reach the contract through sudo) -- those chain semantics
+   are assumed, and exercised by the chain simulator and the world monitor. The "Hence" about the staker's native
+   balance needs the native chain's ledger and stays a monitor. *)
+From MW Require Import Base Wire Staking World.
+From MW.Proofs Require Import Tactics Handlers Maps Invariant Ledger WorldProofs.
 Open Scope N_scope.
 
 (* for every sequence of execute / reply / sudo calls (successful or refused, by any sender, at any block time,
@@ -64,3 +67,71 @@ Theorem C01_deltas : forall va dv av s c,
      match c with CExec e i (LiquidStake _ _ _) => if sweeps (st s) then total_native (st s) else 0 | _ => 0 end).
 Proof. intros. split; reflexivity. Qed.
 Print Assumptions C01_deltas.
+
+(* --- the world: the contract inside a chain that executes its transfers, relays them and calls back --- *)
+(* For every history of transactions (committed or rolled back), relays with any outcome in any order and stray
+   callbacks, in which the routing (channel, staker, staked-asset denom) is not reconfigured and admin-forced recoveries
+   name refunded transfers only: the packets toward the staker that are delivered or in flight, plus those refunded and
+   still recorded by the contract (awaiting re-send), add up to exactly what successful LiquidStake and ReceiveRewards
+   calls forwarded. *)
+Theorem C01_located : forall va dv av w evs,
+  W_inv w -> flights_tracked (w_packets w) -> events_ok va dv av (all_ok va dv av) w evs ->
+  located (staker_of (w_store w)) (denom_of (w_store w)) (w_packets (wrun va dv av w evs))
+  = located (staker_of (w_store w)) (denom_of (w_store w)) (w_packets w) + total_fwd va dv av w evs.
+Proof. exact located_history. Qed.
+Print Assumptions C01_located.
+
+Theorem C01_located_from_instantiate : forall va dv av e i m s r evs,
+  instantiate va e i m = Ok (s, r) -> events_ok va dv av (all_ok va dv av) (world0 s) evs ->
+  located (staker_of s) (denom_of s) (w_packets (wrun va dv av (world0 s) evs)) = total_fwd va dv av (world0 s) evs.
+Proof.
+  intros va dv av e i m s r evs H Hok.
+  pose proof (located_history va dv av (world0 s) evs (world0_inv va e i m s r H) (fun p Hp => match Hp with end) Hok) as L.
+  cbn [world0 w_store w_packets] in L. exact L.
+Qed.
+Print Assumptions C01_located_from_instantiate.
+
+(* a history that meets the hypotheses: a stake of 700, an error acknowledgement (refund), a permissionless recovery,
+   a success acknowledgement -- 700 forwarded, 700 located (delivered), staked total 700 *)
+Open Scope string_scope.
+Definition ex_va : string -> string -> bool := fun _ _ => true.
+Definition ex_dv : string -> string -> string -> option string := fun _ _ _ => None.
+Definition ex_av : string -> bool := fun _ => true.
+Definition ex_wstore : store :=
+  {| cfg := {| native := {| nc_prefix := "celestia"; nc_valprefix := "celestiavaloper"; nc_denom := "utia";
+                            nc_validators := ["v1"%string]; nc_unbonding := 100; nc_staker := "staker"; nc_collector := "coll" |};
+               protocol := {| pc_prefix := "osmo"; pc_channel := "channel-0"; pc_denom := "ibc/x"; pc_min := 1; pc_oracle := None |};
+               fees := {| fee_rate := 0; fee_treasury := None |}; lst_denom := "lst"; monitors := ["mon"%string];
+               batch_period := 10; stopped := false |};
+     st := {| total_native := 0; total_lst := 0; total_reward := 0; total_fees := 0; pending_owner := None; owner_min_time := None |};
+     admin := Some "admin"%string; batches := [(1, new_batch 1 10)]; pending_id := 1; requests := []; inflight := [];
+     waitq := []; version := ("staking"%string, "1.1.0"%string) |}.
+Definition ex_env (t : N) : env := {| now_ns := t; txi := None; self := "me" |}.
+Definition ex_user : string := "osmo1aaaaaaaaaaaaaaaaaaaaaaaaaaaaaaaaaaaaaa".
+Definition ex_events : list wevent :=
+  [ WExec (ex_env 5) {| sender := ex_user; funds := [{| c_denom := "ibc/x"; c_amount := 700 |}] |} (LiquidStake None None None);
+    WRelay 1 OAckErr;
+    WExec (ex_env 9) {| sender := ex_user; funds := [] |} (RecoverPendingIbcTransfers None None None);
+    WRelay 2 OAckOk ].
+Example C01_world_example :
+  W_inv (world0 ex_wstore) /\ events_ok ex_va ex_dv ex_av (all_ok ex_va ex_dv ex_av) (world0 ex_wstore) ex_events
+  /\ located "staker" "ibc/x" (w_packets (wrun ex_va ex_dv ex_av (world0 ex_wstore) ex_events)) = 700
+  /\ total_fwd ex_va ex_dv ex_av (world0 ex_wstore) ex_events = 700
+  /\ total_native (st (w_store (wrun ex_va ex_dv ex_av (world0 ex_wstore) ex_events))) = 700.
+Proof.
+  split.
+  { unfold W_inv, world0, M_inv, I_packets. cbn. repeat split; try constructor; try (intros ? []); try reflexivity; intros; discriminate. }
+  split; [| vm_compute; repeat split; reflexivity].
+  unfold ex_events. cbn [events_ok]. unfold all_ok.
+  assert (T : forall w e i m,
+             (forall s' r, execute ex_va ex_dv ex_av (w_store w) e i m = Ok (s', r) ->
+                           CH s' = CH (w_store w) /\ staker_of s' = staker_of (w_store w) /\ denom_of s' = denom_of (w_store w)) ->
+             lst_denom (cfg (w_store w)) <> denom_of (w_store w) -> honest (w_store w) m ->
+             routing_kept ex_va ex_dv ex_av w (WExec e i m) /\ ev_ok ex_va ex_dv ex_av w (WExec e i m)).
+  { intros w e i m A B C. split; [intros s' r H; apply (A s' r H) | split; [exact A | split; [exact B | exact C]]]. }
+  split; [apply T; [intros s' r H; vm_compute in H; inversion H; subst; vm_compute; repeat split; reflexivity | vm_compute; discriminate | exact I]|].
+  split; [split; exact I|].
+  split; [apply T; [intros s' r H; vm_compute in H; inversion H; subst; vm_compute; repeat split; reflexivity | vm_compute; discriminate | exact I]|].
+  split; [split; exact I | exact I].
+Qed.
+Print Assumptions C01_world_example.
